@@ -4,23 +4,15 @@ namespace TfelVerif.C25.Props
 open Finset TfelVerif TfelVerif.C25 TfelVerif.C25.Spec TfelVerif.C25.Lemmas
 variable {K : Type} [Field K] [LinearOrder K] [IsStrictOrderedRing K] (c c3 : K) (fn : Fns K)
 
-/-- componentwise comparison of a traced 6×6 (or 4×4) tensor with a closed form, by `ring` -/
-macro "tensor_ring" d:term : tactic => `(tactic| (
-  simp only [$d:term, iso6, voigt_fin2, voigt_fin3, voigt_fin4, voigt_fin5, List.cons.injEq, and_true]
+macro "tensor_field" : tactic => `(tactic| (
   repeat' apply And.intro
-  all_goals ring))
+  all_goals first | ring | (field_simp; ring) | field_simp))
 
-theorem Voigt3_n2 (f0 f1 K0 K1 G0 G1 : K) :
-    Gen.Voigt3_n2_all c c3 fn f0 f1 K0 K1 G0 G1
-      = iso6 (3 * voigt ![f0, f1] ![K0, K1]) (2 * voigt ![f0, f1] ![G0, G1]) := by
-  tensor_ring Gen.Voigt3_n2_all
-theorem Voigt3_n5 (f0 f1 f2 f3 f4 K0 K1 K2 K3 K4 G0 G1 G2 G3 G4 : K) :
-    Gen.Voigt3_n5_all c c3 fn f0 f1 f2 f3 f4 K0 K1 K2 K3 K4 G0 G1 G2 G3 G4
-      = iso6 (3 * voigt ![f0, f1, f2, f3, f4] ![K0, K1, K2, K3, K4]) (2 * voigt ![f0, f1, f2, f3, f4] ![G0, G1, G2, G3, G4]) := by
-  tensor_ring Gen.Voigt3_n5_all
-theorem SphEshelby (nu : K) (h : 1 - nu ≠ 0):
-    Gen.SphEshelby_all c c3 fn nu = iso6 ((1 + nu) / (3 * (1 - nu))) (2 * (4 - 5 * nu) / (15 * (1 - nu))) := by
-  simp only [Gen.SphEshelby_all, iso6, List.cons.injEq, and_true]
-  repeat' apply And.intro
-  all_goals (field_simp; ring)
+theorem SphLoc (K0 G0 K1 G1 : K) (hK0 : 0 < K0) (hG0 : 0 < G0) (hK1 : 0 < K1) (hG1 : 0 < G1) :
+    Gen.SphLoc_all c c3 fn (youngOf K0 G0) (nuOf K0 G0) (youngOf K1 G1) (nuOf K1 G1)
+      = iso6 (sphAk K0 G0 K1) (sphAg K0 G0 G1) := by
+  simp only [Gen.SphLoc_all, kC_of hK0 hG0, gC_of hK0 hG0, kC_of hK1 hG1, gC_of hK1 hG1,
+    kaS9 hK0 hG0, muS4 hK0 hG0, ka3 hK0 hG0 hK1, mu2 hK0 hG0 hG1, iso6, List.cons.injEq, and_true]
+  have hK0' := hK0.ne'; have hG0' := hG0.ne'
+  tensor_field
 end TfelVerif.C25.Props
